@@ -66,11 +66,10 @@ class Permission:
         self.writable = writable
 
     def is_parent(self, other):
-        try:
-            other.relative_to(self.path)
-            return True
-        except ValueError:
-            return False
+        # (by parts: `relative_to` walks through all parents of `other`,
+        # which takes quadratic time for a path of many components)
+        parts = self.path.parts
+        return other.parts[: len(parts)] == parts
 
     def __repr__(self):
         return f"{self.__class__.__name__}({self.path!r}, " f"readable={self.readable!r}, writable={self.writable!r})"
@@ -156,7 +155,7 @@ class User:
         parents = filter(lambda p: p.is_parent(path), self.permissions)
         perm = min(
             parents,
-            key=lambda p: len(path.relative_to(p.path).parts),
+            key=lambda p: len(path.parts) - len(p.path.parts),
             default=Permission(),
         )
         return perm
@@ -1131,16 +1130,21 @@ class Server:
         virtual_path = pathlib.PurePosixPath(path)
         if not virtual_path.is_absolute():
             virtual_path = connection.current_directory / virtual_path
-        resolved_virtual_path = pathlib.PurePosixPath("/")
+        # (a list: building the path part by part takes quadratic time, and
+        # one long line would stall every session)
+        parts = []
         for part in virtual_path.parts[1:]:
             if part == "..":
-                resolved_virtual_path = resolved_virtual_path.parent
+                del parts[-1:]
             else:
-                resolved_virtual_path /= part
+                parts.append(part)
+        resolved_virtual_path = pathlib.PurePosixPath("/", *parts)
         base_path = connection.user.base_path
-        real_path = base_path / str(resolved_virtual_path.relative_to("/"))
-        # replace with `is_relative_to` check after 3.9+ requirements lands
-        if not real_path.is_relative_to(base_path) or ".." in real_path.parts[len(base_path.parts) :]:
+        real_path = base_path / "/".join(parts)
+        # (compared by parts: `is_relative_to` and `relative_to` walk through
+        # all parents, which is quadratic as well)
+        inside = real_path.parts[: len(base_path.parts)] == base_path.parts
+        if not inside or ".." in real_path.parts[len(base_path.parts) :]:
             real_path = base_path
             resolved_virtual_path = pathlib.PurePosixPath("/")
         elif real_path.parts[len(base_path.parts) :] != resolved_virtual_path.parts[1:]:
